@@ -330,6 +330,34 @@ pub fn check_queries(g: &G, q: &[N], fail: &mut dyn FnMut(&str, &str, String, Ve
             }
         }
     }
+    // --- name LISTS with repeats (a slice is a list; it may be longer than the node list): same answers as for the set
+    for &x in q {
+        for &y in q {
+            for l in [vec![x, x, x, x], vec![x, y, x, y, x, y, x], vec![y, x, x]] {
+                let mut set = l.clone();
+                set.sort();
+                set.dedup();
+                if g.has_nodes(&l) != g.has_nodes(&set) {
+                    fail("has_nodes_list", "Graph::has_nodes", format!("has_nodes({l:?}) = {} but has_nodes({set:?}) = {}", g.has_nodes(&l), g.has_nodes(&set)), vec![]);
+                }
+                let canon = |r: Result<Vec<&std::sync::Arc<graphrs::Edge<N, A>>>, graphrs::Error>| -> String {
+                    match r {
+                        Ok(es) => format!("Ok({:?})", sorted(es.iter().map(|e| (e.u, e.v, wbits(e.weight), e.attributes)).collect())),
+                        Err(e) => format!("Err({:?})", e.kind),
+                    }
+                };
+                for (name, a, b2) in [
+                    ("Graph::get_edges_for_nodes", canon(g.get_edges_for_nodes(&l)), canon(g.get_edges_for_nodes(&set))),
+                    ("Graph::get_in_edges_for_nodes", canon(g.get_in_edges_for_nodes(&l)), canon(g.get_in_edges_for_nodes(&set))),
+                    ("Graph::get_out_edges_for_nodes", canon(g.get_out_edges_for_nodes(&l)), canon(g.get_out_edges_for_nodes(&set))),
+                ] {
+                    if a != b2 {
+                        fail("node_list_with_repeats", name, format!("for the list {l:?}: {a}; for the set {set:?}: {b2}"), vec![]);
+                    }
+                }
+            }
+        }
+    }
     // --- subsets
     let nq = q.len();
     for mask in 0..(1usize << nq) {
